@@ -1,13 +1,12 @@
 CONSTANTS
-  MaxUI = 2
-  Kinds = {"finite", "endless"}
+  MaxUI = 3
+  Kinds = {"finite"}
   ShowBumpsVersion = TRUE
-  TemplateHasQ = TRUE
+  TemplateHasQ = FALSE
   H = 2
-  LensKind = "one"
-  WithScroll = FALSE
+  LensKind = "mixed"
+  WithScroll = TRUE
   DelayedSetsVersion <- TreeDelayedSetsVersion
 SPECIFICATION Spec
 INVARIANTS TypeOK OneAlive ShownIsStarted Convergence ShowFixed DelayedFixed RowsOfOneRequest ExitClean
-PROPERTIES Liveness NoSurvivor
 CHECK_DEADLOCK FALSE
